@@ -16,6 +16,10 @@ func ZZH_C05_SaveUnderFaults() {
 		if zzvBool() {
 			d.parts["word/"] = []byte{}
 		}
+		if zzvBool() {
+			// a media part that only a header's own relationship part refers to
+			d.parts["word/media/logo.png"] = []byte(zzvString())
+		}
 	}
 	kind := zzvChoice(5)
 	if kind == 3 && zzvBool() {
